@@ -33,7 +33,14 @@ Theorem C06_nothing_left_behind :
 Proof.
   intros l keep before ordered mp out Hout s.
   assert (HIs : HI s) by (apply hstep_HI; apply hstate_HI; apply hinit_HI).
-  split; [apply HIs|]. unfold s. destruct out; [congruence| |]; cbn [hstep fst];
+  split; [apply HIs|]. unfold s. destruct out; [congruence| | |]; cbn [hstep fst];
   rewrite ?failure_terminates_and_clears_spec, ?cut_short_terminates_spec; reflexivity.
 Qed.
 Print Assumptions C06_nothing_left_behind.
+
+(* (4) a call whose worker_init / worker_exit raises surfaces ITS OWN error, never the one an earlier
+   call left in the pool, for every history *)
+Theorem C06_never_surfaces_an_earlier_error :
+  forall (l : layout) (keep : bool) (h : list hop), Forall (fun b => b = true) (hfails (hinit l keep) h).
+Proof. exact never_surfaces_stale_error. Qed.
+Print Assumptions C06_never_surfaces_an_earlier_error.
